@@ -33,7 +33,7 @@ SumOver(f(_), n) == LET RECURSIVE S(_)
                         S(k) == IF k = 0 THEN Zero ELSE Add(f(k), S(k - 1))
                     IN S(n)
 NumWhy(h, bag, num) ==
-  LET m(a) == h.atoms[AtomOfSlot(a)].m   q(a) == h.atoms[AtomOfSlot(a)].q
+  LET m(a) == h.atoms[a].m   q(a) == h.atoms[a].q          \* (masses are per table: a private table may have its own)
       cnt(a) == QDec(bag[a])
       mass == SumOver(LAMBDA a : Mul(cnt(a), m(a)), NSlots)
       charge == SumOver(LAMBDA a : Mul(cnt(a), FromInt(q(a))), NSlots)
@@ -47,7 +47,7 @@ NumWhy(h, bag, num) ==
      ELSE IF ~Close(SumOver(LAMBDA k : num.frac[k].c, Len(num.frac)), One, -11) THEN "FractionsSumToOne"
      ELSE "ok"
 AtomWhy(h) ==           \* an ion weighs its atom less charge electron masses
-  IF \E a \in 1..NAtoms : ~Close(h.atoms[a].m, Sub(h.atoms[a].mbase, Mul(FromInt(h.atoms[a].q), Hdr.electron_mass)), -14)
+  IF \E a \in 1..NSlots : ~Close(h.atoms[a].m, Sub(h.atoms[a].mbase, Mul(FromInt(h.atoms[a].q), Hdr.electron_mass)), -14)
   THEN "IonMassLessElectrons" ELSE "ok"
 RECURSIVE Walk(_, _, _)
 Walk(s, h, i) ==
